@@ -176,7 +176,9 @@ impl Monitor for C01 {
 }
 
 pub fn profile() -> Profile {
-    Profile::general()
+    let mut p = Profile::general();
+    p.p_teleport = 1;
+    p
 }
 
 pub fn run(ctx: &Ctx) -> (Outcome, String, Option<bool>) {
